@@ -74,6 +74,22 @@ def run(facts, rep, tier, ctx):
     for m in ("set_creation_time", "set_modification_time", "set_access_time", "copy_file", "move_file", "move_dir"):
         n += 1
         rep.ob("R18.1", TY, "%s not overridden" % m, m not in o, "", "")
+    # the setters EmbeddedFS does not override fall to the trait's provided methods: those answer NotSupported and nothing else
+    # (shared with C12 R12.3c)
+    for b2 in facts.bodies:
+        if b2.trait_item_of == "filesystem::FileSystem" and b2.kind != "Closure" and b2.name not in o:
+            cb2 = inter.code_body(b2)
+            kinds2 = set()
+            for blk in cb2.blocks:
+                for st in blk.stmts:
+                    if st.kind == "assign" and st.rv.kind == "agg" and st.rv.agg.get("adt") == "error::VfsErrorKind":
+                        kinds2.add(st.rv.agg["variant"])
+            calls2 = [short(x.term.callee() or "?") for x in cb2.calls()]
+            okd = kinds2 == {"NotSupported"} and all(c in ("From::from", "Into::into") for c in calls2)
+            n += 1
+            rep.ob("R18.1", b2.id, "inherited default of %s only answers NotSupported" % b2.name, okd, "" if okd else
+                   "the provided method %s (inherited by EmbeddedFS) builds %s / calls %s: a mutating call on the read-only embedded "
+                   "filesystem is not refused as not-supported" % (b2.name, sorted(kinds2), calls2[:3]), b2.span)
     rep.floor("mutator obligations", n, 11)
     # ---- R18.2
     adt = facts.adts.get("impls::embedded::EmbeddedFS")
@@ -126,6 +142,17 @@ def run(facts, rep, tier, ctx):
                ", ".join(shapes) if okn else
                "the normaliser returns %s: more than the one leading '/' is removed (or something else is computed), so paths "
                "like \"/a.txt/\" or \"//a.txt\" name an entry here but nothing on a physical folder" % ", ".join(shapes), nf.span)
+    # exists / read_dir are decided by the two index maps alone: asking the embedded data itself (RustEmbed::get resolves
+    # backslashes, `..`, and — in debug builds — the disk) gives answers the listings and metadata do not share
+    for m in ("exists", "read_dir"):
+        b = o.get(m)
+        if b is None:
+            continue
+        asks = [x.term.line for cb in inter.code_bodies(b) for x in cb.calls()
+                if "RustEmbed" in (x.term.callee() or "") or short(x.term.callee() or "").startswith("RustEmbed::")]
+        rep.ob("R18.3", b.id, "%s is decided by the index maps only" % m, not asks, "" if not asks else
+               "%s calls into the embedded data (RustEmbed::get/iter) instead of the index built at construction: paths the index "
+               "does not contain can be reported as existing" % m, asks[0] if asks else b.span)
     # who may construct: the struct is only built where the index is built (a derived / second constructor would hand out an
     # empty or partial view)
     ctor_bodies = []
